@@ -210,7 +210,7 @@ def predicted_bad(facts):
 def run(ck):
     ck.cov["trusted_base"] = vlib.TRUSTED_COMMON + [
         "translator gen/tables.go: accessor call sites with constant-folded attribute names and accessor kind; forwarding wrappers resolved structurally",
-        "normalizeAttributeValue is idempotent and preserves emptiness (section hypotheses of Attr/Resolve.v)",
+        "normalizeAttributeValue = Attr.Color.norm (proved idempotent and emptiness-preserving; compared with the hook on generated (name, value) pairs per run); attribute names are ASCII (strings.ToLower modelled on ASCII letters)",
     ]
     ok, mlog = common.prove_with_facts(ck, "Properties/C09.v")
     facts = vlib.load_facts()
@@ -307,6 +307,7 @@ def run(ck):
                 failing.append(({"src": jobs[2 * i]["src"], "src_inlined": jobs[2 * i + 1]["src"], "moved": sorted(set(moved))},
                                 "inlining tag defaults into the elements changes the rendered body"))
     store_tie(ck, hb, failing, ok)
+    norm_tie(ck, hb, failing, ok)
     ck.sample({"inlined_defaults_pair": [jobs[0]["src"][:300], jobs[1]["src"][:300]]} if jobs else {})
     ck.cov["rule"] = ("every (constructible tag, accepted attribute) x source level {mj-class, tag default, tag default over mj-all, mj-class over tag "
                       "default, element over mj-class}: document with the value on the element vs document with the value moved, bodies compared "
@@ -314,6 +315,70 @@ def run(ck):
                       "documents with their per-tag head defaults inlined into every element of that tag. Non-trivial: non-inert cell.")
     if common.report(ck, failing, ok, mlog, "coq/Properties/C09.v (cone) no longer compiles", limit=6, key=lambda w: w):
         return
+
+
+def norm_tie(ck, hb, failing, ok):
+    """normalizeAttributeValue (hook) vs Attr.Color.norm under vm_compute, on generated (name, value) pairs"""
+    rng = ck.rng
+    names = ["color", "background-color", "container-background-color", "Color", "BACKGROUND-COLOR", "inner-background-color", "ico-color", "colour", "colo",
+             "padding", "border", "tb-hover-border-color", "xcolorx", "", "c", "font-family", "COLOR ", "co lor", "border-colour", "mycolor-thing"]
+    hexd = "0123456789abcdefABCDEF"
+    other = "ghGZ#xX- ;,()%.\t"
+    cases = []
+    for i in range(600 if ck.quick else 20000):
+        k = rng.random()
+        if k < 0.35:
+            v = "#" + "".join(rng.choice(hexd) for _ in range(3))
+        elif k < 0.5:
+            v = "#" + "".join(rng.choice(hexd + (other if rng.random() < 0.3 else "")) for _ in range(rng.choice([0, 1, 2, 3, 3, 4, 5, 6, 7, 8])))
+        elif k < 0.6:
+            v = "".join(rng.choice(hexd) for _ in range(rng.choice([3, 4, 6])))
+        elif k < 0.75:
+            v = rng.choice(["red", "transparent", "rgb(1,2,3)", "rgba(0,0,0,.5)", "", " ", "#", "##ab", "#abc ", " #abc", "#ABC", "#aBc", "#1234", "#12345", "#123456", "#é1", "é#ab", "#ab\u00e9"])
+        else:
+            v = "".join(rng.choice("#" + hexd + other) for _ in range(rng.randint(0, 7)))
+        cases.append((i, rng.choice(names), v))
+    res, dead = common.run_jobs(hb, "normvalue", [{"id": i, "name": n, "value": v} for i, n, v in cases])
+
+    def cs(x):      # a Coq string literal holding exactly the bytes of x (list of bytes via String / ascii_of_nat)
+        b = x.encode("utf-8")
+        if all(32 <= c < 127 and c != 34 for c in b):
+            return '"%s"' % x
+        out = '""'
+        for c in reversed(b):
+            out = "(String (Ascii.ascii_of_nat %d) %s)" % (c, out)
+        return out
+    rows = []
+    for i, n, v in cases:
+        r = res.get(i)
+        if r is None:
+            continue
+        changed = r["out"] != v
+        ck.count("norm:%s|%s" % (n, v), changed, tags=["normalisation", "normalised:%s" % changed])
+        rows.append("(%d, %s, %s, %s)" % (i, cs(n), cs(v), cs(r["out"])))
+        lower = n.lower()
+        want = v
+        if v and "color" in lower and len(v.encode()) == 4 and v[0] == "#" and all(c in hexd for c in v[1:]):
+            want = "#" + "".join(c + c for c in v[1:])
+        if r["out"] != want:
+            failing.append(({"attribute": n, "value": v, "normalised": r["out"], "expected": want}, "normalizeAttributeValue is not '#rgb -> #rrggbb for colour attributes, identity otherwise'"))
+    if ok and rows:
+        body = ("From Coq Require Import List String Ascii.\nFrom GV Require Import Attr.Color.\nImport ListNotations.\nOpen Scope string_scope.\n"
+                "Definition cases : list (nat * string * string * string) := [\n" + ";\n".join(rows) + "].\n"
+                "Definition M := Eval vm_compute in norm_mismatches cases.\nPrint M.\n")
+        eok, so, se, dt = vlib.coq_eval("c09_norm", body)
+        m = re.search(r"M\s*=\s*(\[[^\]]*\])", so.replace("\n", " "))
+        if not eok or not m:
+            ck.cov["norm_model_cases"] = 0
+            failing.append(({"evaluation": (se or so)[-400:]}, "Attr.Color.norm could not be evaluated on the observed cases"))
+        else:
+            bad = [int(x) for x in re.findall(r"\d+", m.group(1))]
+            ck.cov["norm_model_cases"] = len(rows)
+            ck.cov["norm_model_mismatches"] = len(bad)
+            byid = {c[0]: c for c in cases}
+            for i in bad[:3]:
+                failing.append(({"attribute": byid[i][1], "value": byid[i][2], "normalised": res[i]["out"]},
+                                "Attr.Color.norm and normalizeAttributeValue disagree (the model or the code changed)"))
 
 
 def store_tie(ck, hb, failing, ok):
